@@ -100,7 +100,7 @@ func (rd *reader) remainingRule(rule string) {
 				ok, why = false, "transport read without consulting Conn.readRemaining"
 				continue
 			}
-			if !knowsGe(p, ev.NLits, 1, is(rem)) {
+			if !knowsGe(p, ev.NLits, 1, isW(p.X, rem)) {
 				ok, why = false, "payload read at "+c.P.Pos(ev.Instr.Pos())+" without [readRemaining > 0]"
 			}
 			bounded := (buf.Kind == core.KSlice && buf.Args[1].Kind == core.KNone && buf.Args[2] == rem) ||
